@@ -228,6 +228,7 @@ func fbOK(fb *functionBuilder) bool {
 
 //@ func (*functionBuilder).exitStack
 //@   props C20
+//@   requires fbOK(fb)
 //@   requires len(fb.scopeShifts) > 0
 
 // Operand A of the generic arithmetic instructions carries the flattened kind,
